@@ -6,6 +6,7 @@ import QuillModel.NamedArgs.Json
 import QuillModel.NamedArgs.Message
 import QuillModel.NamedArgs.JsonParse
 import QuillModel.NamedArgs.Fuel
+import QuillModel.NamedArgs.Tight
 /-!
 # C19 — named placeholders: matching text, ordered key/value pairs, one JSON object per line
 
@@ -106,6 +107,14 @@ theorem C19_detect_false_positive :
 theorem C19_positional_partial (ps : List Piece) (hw : wf ps = true) (hok : procOK ps = true) :
     process (render ps) = (render (ps.map Piece.erase), keysOf ps) :=
   process_render ps hw hok
+
+/-- **C19, the class is exact.** For a template of the grammar the scanner's result is the erased template and the
+    placeholder keys **iff** no placeholder is directly followed by an escaped `}}`: outside the class the key of
+    the first such placeholder swallows the run of `}}` (so the hypothesis of `C19_positional_partial` cannot be
+    weakened — every excluded template is a witness of F11). -/
+theorem C19_positional_iff (ps : List Piece) (hw : wf ps = true) :
+    process (render ps) = (render (ps.map Piece.erase), keysOf ps) ↔ procOK ps = true :=
+  process_correct_iff ps hw
 
 theorem keysOf_length (ps : List Piece) : (keysOf ps).length = (ps.filter Piece.isField).length := by
   induction ps with
